@@ -226,6 +226,15 @@ pub fn run_c07(a: &Args) {
     st.distinct_nontrivial = run.nontrivial.len() as u64;
     st.rule = "sessions on the real blocking and tokio Framed with the outgoing bytes captured per read(): every TINY (sub-type, reqi) value, every kind between two keep-alives, all short histories over a 12-frame alphabet; non-trivial = >= 2 frames and a read that is not frame-aligned".into();
     st.sample("session C 0 f:030000:K:0 f:030100:O:1 f:030003:O:2 | D01030000010301 D0001030003 Z -> W01030000 P0 P1 P2 DC".into());
+    // keep-alives over the WebSocket transport with a peer that is slow to read: exactly one reply message per keep-alive, none else
+    { let iort = tokio::runtime::Builder::new_multi_thread().worker_threads(2).enable_all().build().unwrap();
+      for compressed in [true, false] {
+        let n = if a.thorough() { 18_000 } else { 6_000 };
+        let (sent, handed, replies, others) = crate::c20::ws_keepalive_case(&iort, compressed, n);
+        st.evaluations += sent as u64;
+        if handed != sent || replies != sent || others != 0 { st.fail(format!("[C07 websocket] {sent} keep-alives sent (among packets that are not keep-alives), {handed} handed to the caller, the peer received {replies} reply messages and {others} other messages"), format!("wska {} {n}", mode_tag(compressed))); }
+        st.notes.push(format!("websocket keep-alive burst ({} mode): {sent} sent, {handed} handed over, {replies} replies seen by the peer", mode_tag(compressed)));
+      } }
     { let c1 = crate::conv::sync_conversations("C07", a, &mut rng, "ka", &mut st, &mut out); let c2 = crate::conv::async_conversations("C07", a, &mut rng, &mut st, &mut out); st.distinct_nontrivial += (c1.distinct.len() + c2.distinct.len()) as u64; }
     out.finish(&st);
 }
@@ -259,6 +268,16 @@ pub fn run_c09(a: &Args) {
                 }
             }
         }
+        // the spare byte behind InSimVer must not matter: all 256 versions x spare 1 / 9 / 128 / 255 x on / off
+        for v in 0..=255u8 { for sp in [1u8, 9, 128, 255] { for verify in [true, false] {
+            if v % 4 != sp % 4 && !a.thorough() && v != 9 && v != 8 { continue; }
+            let mut f = mk(v); let n = f.len(); f[n - 1] = sp;
+            let fr = Frames::new(compressed, vec![f.clone(), mk(9)]); let idx = RepIndex::new(&fr);
+            if fr.frames.len() != 2 { st.fail(format!("[C09] an IS_VER frame with spare byte {sp} is not one complete frame for the decoder"), hex(&f)); continue; }
+            let evs = vec![REv::Data(fr.stream()), REv::Eof];
+            run.session("C09", &fr, &idx, verify, &evs, &mut st, &mut out, true);
+            st.bump("IS_VER with a non-zero spare byte");
+        } } }
         // the version text must not matter to the gate: every plain version text, up to the full 8 bytes of the field, x InSim versions 8 / 9 / 10
         for t in GOOD_VERSION_TEXTS.iter() { for v in [8u8, 9, 10] { for verify in [true, false] {
             let mut f = mk(v); for j in 0..8 { f[4 + j] = *t.as_bytes().get(j).unwrap_or(&0); }
@@ -396,6 +415,9 @@ pub fn run_c06(a: &Args) {
     }
     st.rule = "Framed::write on the real blocking and tokio connections over a scripted transport that accepts k bytes per call / reports not-ready (Interrupted for blocking, Pending for tokio) / fails: all acceptance patterns for short frames, every kind one byte per call, random sequences of 1..6 packets; non-trivial = a call accepting < 4 bytes occurs".into();
     st.sample("A C 2 | p a0 p a0 a1  -> transport receives 01030000".into());
+    // UDP as the transport: writes around a bounced datagram (a write must not report success for a datagram the kernel refused)
+    { let iort = crate::c08::io_runtime();
+      for compressed in [true, false] { for imp in ["B", "A"] { st.evaluations += 1; if let Some(w) = crate::c08::bounce_case(imp, &iort, compressed) { st.fail(format!("[C06 udp {}] {w}", if imp == "B" { "blocking" } else { "tokio" }), format!("bounce {imp} {}", mode_tag(compressed))); } st.bump("udp writes around a bounced datagram"); } } }
     // the WebSocket adaptor as the transport, under back-pressure (real loopback sockets with small buffers, a peer that is slow to read)
     { let iort = tokio::runtime::Builder::new_multi_thread().worker_threads(2).enable_all().build().unwrap();
       for compressed in [true, false] {
